@@ -12,6 +12,9 @@ E = "clematis/adapters/embeddings.py"
 ES = "clematis/engine/util/embed_store.py"
 Q = "clematis/engine/stages/t2/quality_ops.py"
 CASES = [
+    ("tick-prunes-by-key-set-rebuild", "mutant", "clematis/engine/gel.py", "    for key in to_delete:\n        edges.pop(key, None)\n", "    if to_delete:\n        edges = {key: edges[key] for key in edges.keys() - to_delete}\n        gstore[\"edges\"] = edges\n", "C01.ORDER"),
+    ("tick-prunes-by-ordered-rebuild", "twin", "clematis/engine/gel.py", "    for key in to_delete:\n        edges.pop(key, None)\n", "    if to_delete:\n        gone = set(to_delete)\n        edges = {key: rec for key, rec in edges.items() if key not in gone}\n        gstore[\"edges\"] = edges\n", None),
+    ("tick-prunes-by-sorted-key-set", "twin", "clematis/engine/gel.py", "    for key in to_delete:\n        edges.pop(key, None)\n", "    for key in sorted(set(to_delete)):\n        edges.pop(key, None)\n", None),
     # SINK
     ("t1-log-unmasked-elapsed", "mutant", O, "                **t1.metrics,\n                \"ms\": t1_ms,\n", "                **t1.metrics,\n                \"ms\": t1_ms,\n                \"elapsed\": t1_ms,\n", "C01.SINK"),
     ("t4-log-wall-stamp", "mutant", O, "                    \"reasons\": getattr(t4, \"reasons\", []),\n                    \"ms\": t4_ms,\n", "                    \"reasons\": getattr(t4, \"reasons\", []),\n                    \"ms\": t4_ms,\n                    \"at\": time.time(),\n", "C01.SINK"),
